@@ -239,7 +239,8 @@ Proof.
   destruct (HS.scion_decode raw) as [[h pld]| |] eqn:Es; try congruence.
   pose proof (skip_exts_no_panic (HS.s_nexthdr h) pld) as P2.
   destruct (skip_exts (HS.s_nexthdr h) pld) as [[proto l4]| |] eqn:Ex; try congruence.
-  destruct (HS.s_path h) as [|rp| | |] eqn:Epath; try discriminate.
+  destruct (HS.s_path h) eqn:Epath; try discriminate.
+  match type of Epath with _ = HP.PScion ?x => rename x into rp end.
   destruct (scion_decode_view _ _ _ _ W Es Epath) as (pre & slack & _ & _ & Er & _ & Wps & _).
   destruct (raw_decode_view _ _ _ Wps Er) as (rsv & infos & hops & Ef & _).
   rewrite Ef. pose proof (l4_port_no_panic qport proto l4) as P3.
